@@ -1,6 +1,6 @@
 (* Props/C06.v — C06: each packet reaches only its own PID's handler; flagged packets reach none. *)
 From TS Require Import Base.Res Model.Timestamp Model.Packet Model.PesFilter Model.Crc Model.Psi Model.Demux
-  Spec.Dispatch Proofs.DispatchProofs.
+  Spec.Dispatch Proofs.DispatchProofs Proofs.ProjectionProofs.
 Open Scope N_scope.
 
 (* the loop of Demultiplex::push (one look-up per run of equal PIDs, re-look-up after a change-set) IS the
@@ -37,3 +37,55 @@ Theorem C06_filters_remove : forall fs pid, wf fs -> wf (filters_remove fs pid) 
   filters_get (filters_remove fs pid) pid = None /\ (forall p, p <> pid -> filters_get (filters_remove fs pid) p = filters_get fs p).
 Proof. exact remove_spec. Qed.
 Print Assumptions C06_filters_remove.
+
+(* ---- the consequence: what one PID's handler observes depends on that PID's own packets only ---- *)
+
+(* [pid_run p hd pkts] is, by its definition, a function of the packets of PID p alone (others are skipped
+   unexamined: C06_pid_run_proj).  In every table whose packets' PIDs have handlers that queue no changes
+   (recording handlers, PES filters), the dispatcher leaves in PID p's entry exactly the handler pid_run
+   computes, and the events carrying that handler's serial are exactly the events pid_run computes: each packet
+   reached its own PID's handler, exactly once, in stream order, and no other handler. *)
+Theorem C06_projection : forall policy scripts fuzzing deep pkts fs cx r,
+  wf fs -> cx_changes cx = nil -> quiet_world fs pkts -> serial_inj fs ->
+  spec_push policy scripts fuzzing deep fs cx pkts = Ok r ->
+  snd (fst r) = cx /\
+  forall p hd, filters_get fs p = Some hd ->
+    exists hd', pid_run policy scripts fuzzing deep p hd pkts = Ok (hd', sel (handler_serial hd) (snd r)) /\
+                filters_get (fst (fst r)) p = Some hd'.
+Proof. exact c06_projection. Qed.
+Print Assumptions C06_projection.
+
+Theorem C06_pid_run_proj : forall policy scripts fuzzing deep p pkts hd,
+  pid_run policy scripts fuzzing deep p hd pkts = pid_run policy scripts fuzzing deep p hd (proj p pkts).
+Proof. exact pid_run_proj. Qed.
+Print Assumptions C06_pid_run_proj.
+
+(* two inputs in which PID p's packets are the same in the same order — packets of other PIDs interleaved in
+   any way, different ones, more or fewer of them — make p's handler observe the same call-backs and leave it
+   in the same state *)
+Theorem C06_interleaving : forall policy scripts fuzzing deep pkts1 pkts2 fs cx r1 r2 p hd,
+  wf fs -> cx_changes cx = nil -> serial_inj fs ->
+  quiet_world fs pkts1 -> quiet_world fs pkts2 -> proj p pkts1 = proj p pkts2 -> filters_get fs p = Some hd ->
+  spec_push policy scripts fuzzing deep fs cx pkts1 = Ok r1 -> spec_push policy scripts fuzzing deep fs cx pkts2 = Ok r2 ->
+  sel (handler_serial hd) (snd r1) = sel (handler_serial hd) (snd r2) /\
+  filters_get (fst (fst r1)) p = filters_get (fst (fst r2)) p.
+Proof. exact c06_interleaving. Qed.
+Print Assumptions C06_interleaving.
+
+Example C06_projection_nonvacuous :
+  let fs := {| f_len := 258; f_slots := ((256, HRec 5) :: (257, HRec 6) :: nil) |} in
+  let pkA := (71 :: 1 :: 0 :: 16 :: List.repeat 255 184) in
+  let pkB := (71 :: 1 :: 1 :: 16 :: List.repeat 255 184) in
+  wf fs /\ serial_inj fs /\ quiet_world fs ((0, pkA) :: (188, pkB) :: (376, pkA) :: nil) /\
+  proj 256 ((0, pkA) :: (188, pkB) :: (376, pkA) :: nil) = ((0, pkA) :: (376, pkA) :: nil).
+Proof.
+  cbv zeta. split; [|split; [|split]].
+  - intros k. cbn [f_slots f_len assoc]. destruct (N.eqb_spec 256 k); [intros _; subst; reflexivity|].
+    destruct (N.eqb_spec 257 k); [intros _; subst; reflexivity|]. intros H; contradiction H; reflexivity.
+  - intros p1 p2 h1 h2 G1 G2 Hs. unfold filters_get in *. cbn [f_len f_slots assoc] in *.
+    destruct (p1 <? 258); [|discriminate]. destruct (p2 <? 258); [|discriminate].
+    destruct (N.eqb_spec 256 p1); destruct (N.eqb_spec 256 p2); destruct (N.eqb_spec 257 p1); destruct (N.eqb_spec 257 p2);
+    try discriminate; try congruence; inversion G1; inversion G2; subst; cbn in Hs; discriminate.
+  - repeat constructor; cbn [snd]; [exists 256, (HRec 5)|exists 257, (HRec 6)|exists 256, (HRec 5)]; repeat split; vm_compute; reflexivity.
+  - vm_compute. reflexivity.
+Qed.
